@@ -79,7 +79,7 @@ def main():
             res["steps"]["build_log"] = (o + o2)[-3000:]
             ok = False
             return
-        rc, o = sh("ctest --test-dir %s/_build -j %s --timeout 900" % (wt, jobs))
+        rc, o = sh("ctest --test-dir %s/_build -j %s --timeout 3600" % (wt, jobs))
         m = re.search(r"(\d+)% tests passed, (\d+) tests failed out of (\d+)", o)
         res["steps"]["ctest"] = m.group(0) if m else o[-500:]
         res["steps"]["suite_passes"] = rc == 0
